@@ -239,7 +239,8 @@ package silence
 // Otherwise the stored version is replaced by a copy with the same id and matchers whose end (and, if it was
 // pending, start) is the expiry instant, so it is expired at every later instant.
 //@ func (*Silences).expire
-//@   props C12 C02
+//@   props C12 C02 C09
+//@   at call Silences).setSilence assert [the-expired-version-is-kept-for-the-whole-retention] arg1 != nil && arg1.Silence != nil && tsT(arg1.ExpiresAt) == tsT(arg1.Silence.EndsAt) + s.retention
 //@   requires s != nil && storeInv(s) && s.broadcast != nil && s.metrics != nil && metricsOK(s)
 //@            && s.metrics.matcherCompileIndexSilenceErrorsTotal != nil && s.logger != nil && s.retention >= 0
 //@   assumes forall k string :: k in s.st ==> (len(s.st[k].Silence.MatcherSets) > 0 ==> s.st[k].Silence.MatcherSets[0] != nil)
@@ -799,3 +800,12 @@ package silence
 //@   ensures [an-opened-snapshot-is-loaded] called("os.Open") && ret1("os.Open") == nil ==> called("Silences).loadSnapshot")
 //@   ensures [success-yields-a-store] result1 == nil ==> result0 != nil && result0.retention == o.Retention && result0.limits == o.Limits
 //@   noeffect Silences).loadSnapshot Options).validate newMetrics
+
+// ---- C12: the state shown by the API for given start and end times at the wall clock: pending before the start,
+// active from the start up to (not including) the end, expired from the end on - so an expiry that set the end to "now"
+// shows as expired at once.
+//@ func CurrentState
+//@   props C12 C02
+//@   ensures [by-the-wall-clock] let n = first("time.Now") in result == (n < start ? SilenceStatePending : (n < end ? SilenceStateActive : SilenceStateExpired))
+//@   ensures [one-clock-reading] count("time.Now") == 1
+//@   assigns nothing
